@@ -14,6 +14,12 @@ META = {
 
 THEOREMS = [
     "Qentem.Props.C09.tables_ok",
+    "Qentem.Props.C09.int_exact_natural",
+    "Qentem.Props.C09.int_exact_negative",
+    "Qentem.Props.C09.int_exact_zero",
+    "Qentem.Props.C09.sign_preserved",
+    "Qentem.Props.C09.malformed_leading_zero",
+    "Qentem.Props.C09.malformed_lone_dot",
 ]
 OPEN = []
 
